@@ -3,11 +3,11 @@ import importlib
 
 # property -> list of (rule module, configs it needs in quick tier)
 PROPERTY_RULES = {
-    "C01": ["r_a10", "r_a9", "r_a8", "r_a2", "r_o3"],
+    "C01": ["r_a10", "r_a9", "r_a8", "r_a2", "r_o3", "r_a12"],
     "C02": ["r_a6", "r_a4", "r_a8", "r_a2", "r_o3", "r_e1", "r_b1"],
     "C03": ["r_a2", "r_a3"],
     "C04": ["r_a8", "r_e1", "r_a6"],
-    "C05": ["r_b1", "r_o3", "r_a2"],
+    "C05": ["r_b1", "r_o3", "r_a2", "r_a12"],
     "C06": ["r_b1", "r_o3"],
     "C07": ["r_a12"],
     "C08": ["r_a11", "r_o3", "r_a2", "r_a4"],
@@ -18,7 +18,7 @@ PROPERTY_RULES = {
     "C13": ["r_e4", "r_a6", "r_c3", "r_e1"],
     "C14": ["r_d1"],
     "C15": ["r_d2", "r_d3"],
-    "C16": ["r_e1"],
+    "C16": ["r_e1", "r_e2"],
     "C17": ["r_c6", "r_a3", "r_c5"],
 }
 
@@ -61,7 +61,9 @@ CLAUSES = {
     "C10": "every typed getter uses the conversion/type/byte order/width its name promises, get_X and try_get_X decode identically, "
            "error fields and cursor movement use the value width; no profile-dependent arithmetic on caller-controlled integers in the decoders",
     "C11": "every typed putter uses the conversion/type/byte order/width its name promises (be = tail, le = head slicing of the 8-byte encoding)",
-    "C16": "no profile-dependent arithmetic (overflow/shift asserts) on caller-controlled integers anywhere in the crate",
+    "C16": "no profile-dependent arithmetic (overflow/shift asserts, explicit wrapping ops) on caller-controlled integers anywhere in the crate; the "
+           "even/odd promotable vtables are slot-wise isomorphic modulo unmasking and the parity dispatch is consistent; fact tables agree across the "
+           "feature/atomic configurations (thorough tier)",
     "C14": "all comparison/hash/borrow impls delegate to the [u8] impl over content-preserving views with operands in the right order",
 }
 
